@@ -54,6 +54,11 @@ def gen_program(r, i):
     # backslashes next to letters that are escape letters, and ints that need more than 64 bits (any spelling)
     stmts.append(programs.LOG("backslashes", programs.S(r.choice(["C:\\temp\\new", "a\\nb", "\\x41", "\\\\n", "tab\\there", "\\", "q\\'r", "\\r\\n"]))))
     stmts.append(programs.LOG("wide-ints", ("list", [programs.I(r.choice([2**64, 2**64 + 1, 2**80, 2**63, 2**100 + 5, 18446744073709551615])), programs.I(r.choice([2**31, 2**32, 2**53 + 1]))])))
+    # what a program can read back about its own definitions: no trace of comments or layout in it
+    stmts.append(("deffn", "helper_", [("x", None, False), ("y", programs.I(2), False)], ("bin", "*", programs.V("x"), programs.V("y"))))
+    stmts.append(("def", "lam_", ("fn", [("p", None, False)], programs.V("p"))))
+    stmts.append(programs.LOG("reflect", ("list", [programs.CALL("info", programs.V("helper_")), programs.CALL("string", programs.V("helper_")), programs.CALL("info", programs.V("lam_")),
+                                                   programs.CALL("string", programs.V("lam_")), programs.CALL("info", programs.V("log")), programs.CALL("helper_", programs.I(3))])))
     return "operators", ("seq", stmts)
 
 
